@@ -742,3 +742,7 @@ _OLD_CO = "    cutoffs = np.cumsum(np.concatenate([np.asarray([0]), each_length]
 for _p, _r in (("C16", "R-C16-forms"), ("C13", "R-C13-radius")):
     P(_p, CU, _OLD_CO, "    cutoffs = np.concatenate([[0.0], np.cumsum(each_length)]) / summed_len")
     B(_p, CU, _OLD_CO, "    cutoffs = np.cumsum(each_length) / summed_len", _r)
+# the list of types grown with extend
+_OLD_ST = "        split_branches += split_branch\n        split_types += [type] * num_subbranches"
+P("C16", CU, _OLD_ST, "        split_branches.extend(split_branch)\n        split_types.extend([type] * len(split_branch))")
+B("C16", CU, _OLD_ST, "        split_branches.extend(split_branch)\n        split_types.extend([type])", "R-C16-split")
